@@ -56,6 +56,19 @@ def replay(payload):
     wexc = payload.get('write_exc_at', [])
     port = FakePort(list(reads), write_exc_at=wexc)
     e = new_obj(port)
+    # call history on the same object (seed C05-17: a retry allowance shared between requests): earlier requests, each answered
+    # correctly by a slow board after k <= 25 empty reads, on their own scripted port; the measured request then runs on `port`
+    for pm, pc, k in payload.get('prior', []):
+        pn = name_of(pc.strip())
+        good = (pn + (',1' if pm == 'query' else '') + '\r\n').encode('ascii')
+        e.port = FakePort([b''] * k + [good])
+        try:
+            getattr(e, pm)(pc)
+        except Exception as ex:     # noqa
+            return {'fails': True, 'observed': f'prior request {pm}({pc!r}) raised {type(ex).__name__}: {ex}', 'expected': 'no exception'}
+        if e.err is not None:
+            return {'fails': True, 'observed': f'prior request {pm}({pc!r}), answered correctly after {k} empty reads, recorded {e.err!r}', 'expected': 'no error'}
+    e.port = port
     cmd = args[0] if args else None
     exp, name = request_oracle(method, cmd, reads, bool(wexc))
     problems = []
@@ -131,6 +144,19 @@ def search_request(payload):
                 out = replay(p)
                 if out['fails']:
                     return {'found': True, 'fails': True, 'input': p, 'observed': out['observed'], 'expected': out['expected']}
+    # histories: slow but correct earlier replies on the same object, then a slow (or prompt) correct reply to the measured request
+    histories = [[('query', 'QG', 12), ('query', 'V', 12)], [('query', 'QG', 25)], [('command', 'SM,1,0,0', 20), ('query', 'QG', 10)],
+                 [('query', 'QG', 9), ('command', 'R,1', 9), ('query', 'QG', 9)], [('command', 'X', 25), ('command', 'X', 25)]]
+    for cmd in cmds[:4]:
+        t = 'QG' if cmd is None else cmd.strip()
+        nm = name_of(t)
+        for hist in histories:
+            for b in (0, 1, 12, 24, 25):
+                for tail in (['%s\r\n' % nm], ['%s,1\r\n' % nm]):
+                    p = {'method': method, 'args': ([] if cmd is None else [cmd]), 'reads': [''] * b + tail, 'write_exc_at': [], 'prior': hist}
+                    out = replay(p)
+                    if out['fails']:
+                        return {'found': True, 'fails': True, 'input': p, 'observed': out['observed'], 'expected': out['expected']}
     return {'found': False}
 
 
